@@ -410,6 +410,9 @@ func runDsync(r *simkit.Run, c Cfg, mode dsMode) {
 	}
 
 	// --- tasks ---
+	impatientAnn := tp.Chance(1, 4, "impatientAnn")
+	gone, goneCancel := context.WithCancel(bg)
+	goneCancel()
 	for _, pub := range d.pubs {
 		pub := pub
 		n := tp.Range(1, 6, "nAnn")
@@ -432,6 +435,19 @@ func runDsync(r *simkit.Run, c Cfg, mode dsMode) {
 				a := &annRec{pub: pub, c: head, idx: len(pub.Ads) - 1}
 				d.anns = append(d.anns, a)
 				t.Logf("Announce(%s)", w.CidName(head))
+				if impatientAnn && !d.allowFilter {
+					// an announcer whose context has ended before the call (a
+					// client that has gone away): the announcement is taken
+					// all the same, or the call returns the context's error
+					// and leaves no trace - the runtime's pick when the queue
+					// has room, so it is repeated until the pick cannot
+					// matter; the ordinary call below is then a duplicate
+					for k := 0; k < 16; k++ {
+						if err := d.sub.Sub.Announce(gone, head, pub.AddrInfo()); err == nil {
+							break
+						}
+					}
+				}
 				a.err = d.sub.Sub.Announce(bg, head, pub.AddrInfo())
 				if d.allowFilter {
 					a.refused = !d.allowSaid[simkit.CurGID()]
@@ -1634,6 +1650,11 @@ func (d *dsWorld) postCloseBattery() {
 			}
 			return ""
 		}},
+	}
+	// every entry point a second time: an error path of the first call must
+	// not have left anything behind that the next call waits for
+	for _, c := range append([]*call(nil), calls...) {
+		calls = append(calls, &call{name: c.name + " (second call)", f: c.f})
 	}
 	r.PassThrough(true)
 	for _, c := range calls {
